@@ -10,7 +10,7 @@
 //! and name read from the event – and answers `forms-differ` if they disagree.
 use crate::rng::Rng;
 use crate::sink::{Reply, Sink};
-use crate::vrlrun::{compile_vrl, run_program};
+use crate::vrlrun_c27::{compile_vrl, run_program};
 use crate::wire::{hex, show_value, unhex};
 use std::cell::RefCell;
 use std::collections::{BTreeMap, HashMap};
